@@ -100,6 +100,7 @@ typedef struct {
     m_evt_ps_t msg;
     m_ps_flags flags;
     ev_src_t *sub;
+    void **data_guard;                      // M_PS_AUTOFREE only: ref-counted owner of msg.data, shared by all the copies of the message
 } ps_priv_t;
 
 extern const char *src_names[];
